@@ -305,6 +305,23 @@ func GenSProgram(t *rapid.T, cfg SGenCfg) SProgram {
 				o.Fail = rapid.Permutation(seqInts(nodes)).Draw(t, "rvfailperm")[:nf]
 			}
 			p.Ops = append(p.Ops, o)
+		case "readdcycle":
+			// a replica is removed, comes back closed, is added, takes foreground writes while
+			// it is rebuilding and is promoted - in half of the cases with a write arriving
+			// while the controller verifies the rebuild
+			n := rapid.IntRange(0, nodes-1).Draw(t, "node")
+			p.Ops = append(p.Ops, SOp{K: "remove", Node: n}, SOp{K: "reconnect", Node: n}, SOp{K: "add", Node: n})
+			for k := rapid.IntRange(0, 2).Draw(t, "wowrites"); k > 0; k-- {
+				off := rapid.Int64Range(0, total-1).Draw(t, "off") / 8 * 8
+				p.Ops = append(p.Ops, SOp{K: "write", Off: off, Len: 8 * rapid.Int64Range(1, 2).Draw(t, "nblk"), Seed: rapid.IntRange(1, 250).Draw(t, "seed")})
+			}
+			o := SOp{K: "promote", Node: n, Seed: rapid.IntRange(1, 5000).Draw(t, "wseed"), Reps: 1}
+			if rapid.Bool().Draw(t, "verifyrace") {
+				o.Str = "verifyrace"
+			} else {
+				o.N = int64(rapid.IntRange(0, 2).Draw(t, "windowwrites"))
+			}
+			p.Ops = append(p.Ops, o)
 		case "unmapsnap":
 			// a volume snapshot, one replica leaves and is rebuilt (it reopens its chain),
 			// then an UNMAP over blocks the snapshot owns: the snapshot keeps its content
